@@ -457,10 +457,20 @@ namespace ST
             (format.float_class == ST::float_fixed) ? 'f' : 'g';
         format_buffer[end] = 0;
 
-        char out_buffer[64];
-        int format_size = snprintf(out_buffer, sizeof(out_buffer), format_buffer, value);
+        char stack_buffer[64];
+        int format_size = snprintf(stack_buffer, sizeof(stack_buffer), format_buffer, value);
         ST_ASSERT(format_size > 0, "Your libc doesn't support reporting format size");
-        ST_ASSERT(static_cast<size_t>(format_size) < sizeof(out_buffer), "Format buffer too small");
+
+        // Large values in fixed notation and large precisions need more room
+        const char *out_buffer = stack_buffer;
+        ST::char_buffer heap_buffer;
+        if (static_cast<size_t>(format_size) >= sizeof(stack_buffer)) {
+            heap_buffer.allocate(format_size);
+            format_size = snprintf(heap_buffer.data(), heap_buffer.size() + 1, format_buffer, value);
+            ST_ASSERT(format_size > 0 && static_cast<size_t>(format_size) == heap_buffer.size(),
+                      "Inconsistent format size reported by libc");
+            out_buffer = heap_buffer.data();
+        }
 
         if (format.minimum_length > format_size) {
             if (format.alignment == ST::align_left) {
